@@ -398,7 +398,17 @@ def main():
         return 2
     cmd = sys.argv[1]
     if cmd == "setup":
-        ok = build(False) is not None and build(True) is not None
+        b1 = build(False)
+        ok = b1 is not None and build(True) is not None
+        if ok:
+            # self-checks of the harness (reference models, io doubles); they do not touch the code under test
+            p = subprocess.run([b1, "-test.run", "^TestSelf_", "-test.timeout", "300s"], cwd=os.path.join(HARNESS, "props"), env=goenv(),
+                               stdout=subprocess.PIPE, stderr=subprocess.STDOUT, text=True, errors="replace")
+            if p.returncode != 0:
+                log("harness self-checks failed:\n" + p.stdout[-3000:])
+                ok = False
+            else:
+                log("harness self-checks passed")
         return 0 if ok else 2
     if cmd == "run":
         pid = sys.argv[2]
